@@ -1071,6 +1071,16 @@ def run_unit_cases(ctx, cases, compare=True, register=True):
             q, bad = run_unit(kind, p, aux)
         except common.HarnessError:
             raise
+        except Exception as e:
+            # the unit under test raised where the model says it returns: not a break-out by itself,
+            # but the correspondence is broken (verdict rule: search, then report)
+            if register:
+                ctx.case(case, nontrivial=interesting(p), key=('unit', kind, p, aux))
+                ctx.count('unit_raised:%s:%s' % (kind, type(e).__name__))
+            if compare and len(ctx.disagreements) < 50:
+                ctx.disagree(case, 'raised %s: %s' % (type(e).__name__, str(e)[:200]), 'returns normally',
+                             'unit %s raised an exception the model does not have' % kind)
+            continue
         if register:
             ctx.case(case, nontrivial=interesting(p), key=('unit', kind, p, aux))
             ctx.count('unit:' + kind)
